@@ -85,16 +85,20 @@ pub fn check_view(pp: &ParsedPacket) -> Result<Decoded, Finding> {
             }
         }};
     }
-    cmp!("offset_question", pp.offset_question, d.layout.question.first().map(|q| q.off));
-    cmp!("offset_answers", pp.offset_answers, d.layout.sec_start(0));
-    cmp!("offset_nameservers", pp.offset_nameservers, d.layout.sec_start(1));
-    cmp!("offset_additional", pp.offset_additional, d.layout.sec_start(2));
-    let opt = d.msg.opt();
-    cmp!("offset_edns", pp.offset_edns, d.layout.opt.as_ref().map(|o| o.options_start));
-    cmp!("edns_count", pp.edns_count as usize, d.layout.opt.as_ref().map(|o| o.option_offs.len()).unwrap_or(0));
-    cmp!("edns_version", pp.edns_version, opt.map(|o| ((o.ttl >> 16) & 0xff) as u8));
-    cmp!("ext_rcode", pp.ext_rcode, opt.map(|o| (o.ttl >> 24) as u8));
-    cmp!("ext_flags", pp.ext_flags, opt.map(|o| (o.ttl & 0xffff) as u16));
+    if !strict {
+        // states the builder API produces on purpose but the parser cannot represent: the reference decoding
+        // (relaxed on exactly those two clauses) stands in for the fresh parse
+        cmp!("offset_question", pp.offset_question, d.layout.question.first().map(|q| q.off));
+        cmp!("offset_answers", pp.offset_answers, d.layout.sec_start(0));
+        cmp!("offset_nameservers", pp.offset_nameservers, d.layout.sec_start(1));
+        cmp!("offset_additional", pp.offset_additional, d.layout.sec_start(2));
+        let opt = d.msg.opt();
+        cmp!("offset_edns", pp.offset_edns, d.layout.opt.as_ref().map(|o| o.options_start));
+        cmp!("edns_count", pp.edns_count as usize, d.layout.opt.as_ref().map(|o| o.option_offs.len()).unwrap_or(0));
+        cmp!("edns_version", pp.edns_version, opt.map(|o| ((o.ttl >> 16) & 0xff) as u8));
+        cmp!("ext_rcode", pp.ext_rcode, opt.map(|o| (o.ttl >> 24) as u8));
+        cmp!("ext_flags", pp.ext_flags, opt.map(|o| (o.ttl & 0xffff) as u16));
+    }
     if !pp.maybe_compressed && d.layout.pointers > 0 {
         return Err(f(Prop::C08, "view|maybe_compressed", format!("maybe_compressed is false but the bytes hold {} pointer(s): {}", d.layout.pointers, short(bytes))));
     }
